@@ -47,8 +47,10 @@ def norm_cfg(cfg: dict) -> dict:
         "backed": sorted(int(x) for x in cfg.get("backed", [])),
         "par": bool(cfg.get("par", False)),
         "shard": bool(cfg.get("shard", False)),
-        "pre": sorted(int(x) for x in cfg.get("pre", [])),
+        "pre": sorted(int(x) for x in cfg.get("pre", [])),   # pre-existing NUMBERED shard files (shard indices)
     }
+    # sharded save: limit in chunks (max_shard_size_bytes = lim * CH); default: one plain tensor per shard
+    c["lim"] = int(cfg.get("lim") or (c["nc"] if c["shard"] else 0)) if c["shard"] else 0
     c["np"] = sorted(int(x) for x in cfg.get("np", []))  # tensors that are plain numpy ir.Tensor (not in the spec cfg)
     return c
 
@@ -56,7 +58,7 @@ def norm_cfg(cfg: dict) -> dict:
 def cfg_key(c: dict) -> str:
     s = f"nt{c['nt']}nc{c['nc']}-{c['dest']}-b{''.join(map(str, c['backed'])) or '0'}-{'par' if c['par'] else 'ser'}"
     if c["shard"]:
-        s += f"-shard-pre{''.join(map(str, c['pre'])) or '0'}"
+        s += f"-shard{c['lim']}-pre{''.join(map(str, c['pre'])) or '0'}"
     if c.get("np"):
         s += f"-np{''.join(map(str, c['np']))}"
     return s
@@ -66,12 +68,37 @@ def nchunks(c: dict, t: int) -> int:
     return 1 if t in c["backed"] else c["nc"]
 
 
+def shard_assign(c: dict) -> list:
+    """Shard index of every tensor (classification aid; the oracle is ShardAssign in AtomicSave.tla)."""
+    if not c["shard"]:
+        return [1] * c["nt"]
+    out, s, size = [], 1, 0
+    for t in range(1, c["nt"] + 1):
+        n = nchunks(c, t)
+        if size + n > c["lim"] and size > 0:
+            s, size = s + 1, 0
+        out.append(s)
+        size += n
+    return out
+
+
+def nshards(c: dict) -> int:
+    return shard_assign(c)[-1]
+
+
+def numbered(c: dict) -> bool:
+    return c["shard"] and nshards(c) > 1
+
+
 def tensors_of(c: dict, f: int) -> list:
-    return [f] if c["shard"] else list(range(1, c["nt"] + 1))
+    """Tensors written to data file f (file 1 = plain name, files 2.. = numbered shards)."""
+    sh = shard_assign(c)
+    s = f - 1 if numbered(c) else 1
+    return [t for t in range(1, c["nt"] + 1) if sh[t - 1] == s]
 
 
 def nfiles(c: dict) -> int:
-    return c["nt"] if c["shard"] else 1
+    return 1 + nshards(c) if numbered(c) else 1
 
 
 def chunk_bytes(t: int, j: int) -> bytes:
@@ -101,11 +128,12 @@ def chunk_layout(c: dict, f: int) -> list:
 
 def file_names(c: dict) -> list:
     """Requested destination path(s) relative to the directory, index f-1."""
-    if not c["shard"]:
+    if not numbered(c):
         return [DATA_NAME]
     from onnx_ir._shard_filename import get_shard_filename
 
-    return [get_shard_filename(DATA_NAME, i, c["nt"]) for i in range(1, c["nt"] + 1)]
+    n = nshards(c)
+    return [DATA_NAME] + [get_shard_filename(DATA_NAME, i, n) for i in range(1, n + 1)]
 
 
 def real_rel(c: dict) -> str:
@@ -116,9 +144,9 @@ def prepare_dir(c: dict, d: str) -> None:
     os.makedirs(d, exist_ok=True)
     if c["shard"]:
         names = file_names(c)
-        for f in c["pre"]:
-            _write(os.path.join(d, names[f - 1]), old_bytes(c), OLD_MODE)
-        return
+        for sidx in c["pre"]:
+            if numbered(c) and sidx < len(names):
+                _write(os.path.join(d, names[sidx]), old_bytes(c), OLD_MODE)
     if c["dest"] == "file":
         _write(os.path.join(d, DATA_NAME), old_bytes(c), OLD_MODE)
     elif c["dest"] == "symlink":
@@ -363,7 +391,7 @@ def save_kwargs(c: dict) -> dict:
     if c["par"]:
         kw["max_workers"] = 2
     if c["shard"]:
-        kw["max_shard_size_bytes"] = c["nc"] * CH
+        kw["max_shard_size_bytes"] = c["lim"] * CH
     return kw
 
 
